@@ -71,6 +71,7 @@ type Ctx struct {
 	cg     *callgraph.Graph
 	cgKind string
 
+	funcsAll map[*ssa.Function]bool
 	declOf map[*types.Func]*ast.FuncDecl
 	fileOf map[*ast.FuncDecl]*packages.Package
 }
